@@ -195,6 +195,53 @@ pub fn wrap_patches(p: &Parse) -> Vec<Dmg> {
     out
 }
 
+/// Two header fields of one leaf changed CONSISTENTLY, so that the byte length still equals the product of
+/// the dimensions: one dimension halved and another doubled, two dimensions swapped, the limb count and
+/// max_size raised together (payload extended accordingly is not possible in place, so that one is left to the
+/// length check). A reader that compares products instead of factors lets these through.
+pub fn consistent_patches(p: &Parse) -> Vec<Dmg> {
+    let mut out = Vec::new();
+    for (ui, u) in p.units.iter().enumerate() {
+        if u.leaf.is_none() {
+            continue;
+        }
+        let fs: Vec<&Field> = p.fields.iter().filter(|f| f.unit == Some(ui) && f.width == 8).collect();
+        let dims: Vec<&Field> = fs.iter().copied().filter(|f| f.role == Role::Dim).collect();
+        let region = |changes: &[(usize, u64)]| -> Dmg {
+            let start = changes.iter().map(|c| c.0).min().unwrap();
+            let end = changes.iter().map(|c| c.0).max().unwrap() + 8;
+            let mut bytes = vec![0u8; end - start];
+            for f in fs.iter().filter(|f| f.off >= start && f.off < end) {
+                let v = changes.iter().find(|c| c.0 == f.off).map(|c| c.1).unwrap_or(f.val);
+                bytes[f.off - start..f.off - start + 8].copy_from_slice(&v.to_le_bytes());
+            }
+            // fields of other widths inside the region do not occur in leaf headers (all u64)
+            Dmg::Patch { off: start, bytes }
+        };
+        for (i, a) in dims.iter().enumerate() {
+            for b in dims.iter().skip(i + 1) {
+                if a.val >= 2 && a.val % 2 == 0 {
+                    out.push(region(&[(a.off, a.val / 2), (b.off, b.val.wrapping_mul(2))]));
+                }
+                if b.val >= 2 && b.val % 2 == 0 {
+                    out.push(region(&[(a.off, a.val.wrapping_mul(2)), (b.off, b.val / 2)]));
+                }
+                if a.val != b.val {
+                    out.push(region(&[(a.off, b.val), (b.off, a.val)]));
+                }
+            }
+        }
+        // limb count and max_size raised / lowered together
+        if let (Some(sz), Some(ms)) = (dims.last(), fs.iter().find(|f| f.role == Role::MaxSize)) {
+            out.push(region(&[(sz.off, sz.val + 1), (ms.off, ms.val + 1)]));
+            if sz.val >= 2 {
+                out.push(region(&[(sz.off, sz.val - 1), (ms.off, ms.val.saturating_sub(1))]));
+            }
+        }
+    }
+    out
+}
+
 pub struct GroupResult {
     pub cases: u64,
     pub hash: u64,
@@ -319,6 +366,9 @@ pub fn run_group(
     }
     // 4. coordinated wrap-around corruptions
     for d in wrap_patches(&p) {
+        cases.push((Faults::none(), Some(d), Faults::none()));
+    }
+    for d in consistent_patches(&p) {
         cases.push((Faults::none(), Some(d), Faults::none()));
     }
     // 5. torn blocks: zeroed 64-byte blocks, lost 8-byte blocks at field boundaries, payload bit flips, trailing garbage
@@ -531,7 +581,8 @@ pub fn run_random(
                 rng.fill(&mut g);
                 Dmg::Append(g)
             } else {
-                let w = wrap_patches(&p);
+                let mut w = wrap_patches(&p);
+                w.extend(consistent_patches(&p));
                 if w.is_empty() { Dmg::Truncate(0) } else { rng.pick(&w).clone() }
             };
             Op::Damage { blob: b, d }
